@@ -148,7 +148,7 @@ func TestVerif_C06(t *testing.T) {
 					rep.Violation(sig, v.Why, map[string]any{"batches": batches, "filters": fs, "answer": shortEvs(ans), "live": shortEvs(live)})
 					return
 				}
-				if i == 0 && b == 0 && q == 1 {
+				if q == 1 && len(ans) > 0 && rep.WantSample() {
 					rep.Sample(map[string]any{"batch": shortEvs(batch), "filters": vk.JSON(fs), "answer": shortEvs(ans)})
 				}
 			}
